@@ -198,6 +198,16 @@ def run(chk):
                         okg = True       # which Restion / Result arm the poll took is handled by the rules above
                     elif desc_contains(gdesc, lambda y: y[0] == "call" and core.re.search(r"mpsc::Receiver::<T>::(try_recv|recv|recv_timeout)$|mpsc::Receiver::(try_recv|recv)$", y[1]) is not None):
                         okg = True       # the shutdown / channel polls of the outer loop
+                if not okg and isinstance(gdesc, tuple) and gdesc and gdesc[0] == "multi" and len(gdesc) > 4 and len(gdesc[1]) == len(gdesc[4]) and \
+                        all(a in (("lit", True), ("lit", False)) for a in gdesc[1]):
+                    # a flag computed earlier (`let will_ping = match &self.heartbeat { Some(c) if elapsed >= c.interval => true, _ => false }`):
+                    # what it depends on are the guards of its definitions
+                    inner = [g2 for db in gdesc[4] for s2, l2, g2, i2 in core.guards_dominating(prog, b, db)]
+                    okg = bool(inner) and all(isinstance(g2, tuple) and g2 and (
+                        desc_contains(g2, lambda y: y[0] == "field" and y[2] == hbi and y[1][0] == "param") or
+                        desc_contains(g2, lambda y: y[0] == "call" and y[1].endswith("Instant::elapsed")) or
+                        desc_contains(g2, lambda y: y[0] == "call" and core.re.search(r"mpsc::Receiver::<T>::(try_recv|recv|recv_timeout)$|Iterator>?::next$|HashMap::<K, V, S, A>::(get_mut|get)$", y[1]) is not None))
+                        for g2 in inner)
                 if not okg:
                     odd.append((lab, core.short(str(gdesc))[:70]))
             chk.ob("R2.heartbeat", fn, "when a ping is due, every registered stream is pinged (no other condition on the ping)", not odd,
